@@ -2,3 +2,5 @@ import Kn.Pre
 import Kn.Lead
 import Kn.Loop
 import Kn.Arr
+import Kn.Norm
+import Kn.Full
